@@ -34,7 +34,7 @@ man = dict(
     version=1,
     setup_cmd="./check setup",
     hooks=dict(guard="verif",
-               enable="go build -tags verif -overlay /verif/.work/overlay.json (virtual //go:build verif files from /verif/harness/go/repo_overlay; /repo itself carries no hook code)",
+               enable="go build -tags verif -overlay /verif/.work/overlay_<harness>.json — virtual `//go:build verif` files kept under /verif/harness/go/repo_overlay are mapped into the module by Go's -overlay flag (one overlay per property); /repo itself carries no hook code, so there are no hook commits",
                baseline_off_cmd="cd /repo && go test -vet=off -count=1 ./...",
                source_commits=[], add_only=True),
     engines=[dict(name="coq-proof+correspondence", path="/verif/harness/py/check.py",
@@ -42,7 +42,7 @@ man = dict(
                   kind_free_text="Coq 8.16.1 theorems about hand-written executable Gallina models (coq/Model, coq/Proofs, coq/Props), tables regenerated from /repo into coq/Gen on every run, and a differential correspondence check model-vs-implementation on generated inputs (vm_compute inside coqc)")],
     checks=checks,
     not_applicable=na,
-    notes="All checks rebuild gopherjs and the overlay harnesses from /repo's working tree on every run. See DESIGN.md.",
+    notes="All checks rebuild gopherjs and the overlay harnesses from /repo's working tree on every run, regenerate coq/Gen tables from the sources, rebuild the Coq theorems (full .vo) and run the model/implementation correspondence. /repo carries 40 unguarded `fix:` commits for genuine defects (known_findings.txt); recorded findings are in known_findings.d/. See DESIGN.md and reports/.",
 )
 with open(os.path.join(C.VERIF, "MANIFEST.json"), "w") as f:
     json.dump(man, f, indent=1)
